@@ -15,6 +15,7 @@ import (
 type Term struct {
 	S    string
 	Sort *Sort
+	Fn   func(idx *Term) *Term // abstract maps only (Sort.Kind == KFn)
 }
 
 func (t *Term) String() string { return t.S }
